@@ -203,9 +203,10 @@ func (c *Ctx) checkEntryOrder() {
 		R.Fail("C16-order", "NewEntry: Entry.Attributes", c.P.Pos(f.Pos()), "NewEntry does not set Attributes")
 		return
 	}
-	// Attributes value is a phi/append chain built in a loop; the loop must not be a map range
-	// find the append feeding it and the loop it is in
-	var appendCall *ssa.Call
+	// Attributes value is a phi/append chain built in a loop, or a slice made with its final length and filled by
+	// index in a loop; the loop must not be a map range
+	var appendCall ssa.Instruction
+	var made *ssa.MakeSlice
 	var find func(v ssa.Value, depth int)
 	seen := map[ssa.Value]bool{}
 	find = func(v ssa.Value, depth int) {
@@ -218,6 +219,8 @@ func (c *Ctx) checkEntryOrder() {
 			for _, e := range x.Edges {
 				find(e, depth+1)
 			}
+		case *ssa.MakeSlice:
+			made = x
 		case *ssa.Call:
 			if b, ok := x.Common().Value.(*ssa.Builtin); ok && b.Name() == "append" {
 				appendCall = x
@@ -225,8 +228,30 @@ func (c *Ctx) checkEntryOrder() {
 		}
 	}
 	find(attrStore.Val, 0)
+	if appendCall == nil && made != nil {
+		// the element stores: s[i] = ... on the made slice itself or on a load of the Attributes field
+		n := 0
+		an.Instrs(f, func(in ssa.Instruction) {
+			st, ok := in.(*ssa.Store)
+			if !ok {
+				return
+			}
+			ia, ok := st.Addr.(*ssa.IndexAddr)
+			if !ok {
+				return
+			}
+			_, isField := fieldLoad(ia.X, G, "Entry", "Attributes")
+			if an.Strip(ia.X) == ssa.Value(made) || isField {
+				n++
+				appendCall = st
+			}
+		})
+		if n != 1 {
+			appendCall = nil
+		}
+	}
 	if appendCall == nil {
-		R.Unknown("C16-order", "NewEntry: Entry.Attributes built by append in a loop", c.pos(attrStore), "cannot find the append that builds Attributes")
+		R.Unknown("C16-order", "NewEntry: Entry.Attributes built by append in a loop", c.pos(attrStore), "cannot find the append (or the single indexed store) that builds Attributes")
 		return
 	}
 	// is the append inside a map-range loop? (its block is dominated by a block containing Next on a map range)
@@ -292,7 +317,153 @@ func (c *Ctx) checkEntryOrder() {
 			}
 		}
 	}
+	// every slice filled in map-iteration order that the building loop (or anything after it) reads must be one
+	// that was sorted: a second, unsorted copy of the names must not decide the order
+	chainOf := func(start ssa.Value) map[ssa.Value]bool {
+		chain := map[ssa.Value]bool{}
+		var grow func(v ssa.Value)
+		grow = func(v ssa.Value) {
+			if v == nil || chain[v] {
+				return
+			}
+			switch x := v.(type) {
+			case *ssa.Phi:
+			case *ssa.Slice:
+			case *ssa.Call:
+				if b, ok := x.Common().Value.(*ssa.Builtin); !ok || b.Name() != "append" {
+					return
+				}
+			default:
+				return
+			}
+			chain[v] = true
+			switch x := v.(type) {
+			case *ssa.Phi:
+				for _, e := range x.Edges {
+					grow(e)
+				}
+			case *ssa.Slice:
+				grow(x.X)
+			case *ssa.Call:
+				grow(x.Common().Args[0])
+			}
+			if refs := v.Referrers(); refs != nil {
+				for _, ref := range *refs {
+					switch r := ref.(type) {
+					case *ssa.Phi:
+						grow(r)
+					case *ssa.Slice:
+						if r.X == v {
+							grow(r)
+						}
+					case *ssa.Call:
+						if b, ok := r.Common().Value.(*ssa.Builtin); ok && b.Name() == "append" && r.Common().Args[0] == v {
+							grow(r)
+						}
+					}
+				}
+			}
+		}
+		grow(start)
+		return chain
+	}
+	inMapRange := func(in ssa.Instruction) bool {
+		for _, mr := range mapRanges {
+			for _, ref := range *mr.Referrers() {
+				if nx, ok := ref.(*ssa.Next); ok && naturalLoop(nx.Block())[in.Block()] {
+					return true
+				}
+			}
+		}
+		return false
+	}
+	var sortedArgs []ssa.Value
+	for _, ci := range an.Calls(f) {
+		if sf := ci.Common().StaticCallee(); sf != nil && len(ci.Common().Args) > 0 {
+			if pp := an.FuncPkgPath(sf); pp == "sort" || pp == "slices" || pp == "golang.org/x/exp/slices" {
+				after := ci.Block().Dominates(head)
+				for _, mr := range mapRanges {
+					if !an.InstrDominates(mr, ci) {
+						after = false
+					}
+				}
+				if after {
+					sortedArgs = append(sortedArgs, an.Strip(ci.Common().Args[0]))
+				}
+			}
+		}
+	}
+	done := map[ssa.Value]bool{}
+	for _, ci := range an.Calls(f) {
+		call, ok := ci.(*ssa.Call)
+		if !ok || done[call] {
+			continue
+		}
+		if b, isB := call.Common().Value.(*ssa.Builtin); !isB || b.Name() != "append" || !inMapRange(call) {
+			continue
+		}
+		chain := chainOf(call)
+		isSorted := false
+		for v := range chain {
+			done[v] = true
+			for _, sa := range sortedArgs {
+				if sa == v {
+					isSorted = true
+				}
+			}
+		}
+		if isSorted {
+			continue
+		}
+		for v := range chain {
+			refs := v.Referrers()
+			if refs == nil {
+				continue
+			}
+			for _, ref := range *refs {
+				if rv, isV := ref.(ssa.Value); isV && chain[rv] {
+					continue
+				}
+				if rc, isC := ref.(*ssa.Call); isC {
+					if b, isB := rc.Common().Value.(*ssa.Builtin); isB && (b.Name() == "len" || b.Name() == "cap") {
+						continue
+					}
+				}
+				if head.Dominates(ref.Block()) {
+					R.Fail("C16-order", "NewEntry: attribute order independent of map iteration", c.pos(ref), "the loop that builds Attributes (or the code after it) reads a slice that was filled in map-iteration order and never sorted: the order of the attributes differs from call to call")
+					return
+				}
+			}
+		}
+	}
 	R.Check(sorted, "C16-order", "NewEntry: attribute order independent of map iteration", c.pos(appendCall), "names collected from the map are sorted before the loop that builds Attributes", "the names are not sorted between the map iteration and building Attributes: order is not deterministic")
+}
+
+// naturalLoop: the blocks of the natural loop(s) headed by h (h itself and
+// every block that reaches one of h's back edges without passing through h).
+func naturalLoop(h *ssa.BasicBlock) map[*ssa.BasicBlock]bool {
+	in := map[*ssa.BasicBlock]bool{}
+	var work []*ssa.BasicBlock
+	for _, p := range h.Preds {
+		if h.Dominates(p) {
+			in[h] = true
+			if !in[p] {
+				in[p] = true
+				work = append(work, p)
+			}
+		}
+	}
+	for len(work) > 0 {
+		b := work[len(work)-1]
+		work = work[:len(work)-1]
+		for _, p := range b.Preds {
+			if !in[p] {
+				in[p] = true
+				work = append(work, p)
+			}
+		}
+	}
+	return in
 }
 
 // sortedKeysHelper: f returns a slice that it sorted, by a total order on
@@ -347,7 +518,23 @@ func totalStringOrder(cc *ssa.CallCommon) (bool, string) {
 	if f == nil {
 		return false, "cannot be resolved"
 	}
-	switch an.FuncPkgPath(f) + "." + f.Name() {
+	name := f.Name()
+	if o := f.Origin(); o != nil {
+		// an instantiation of the generic slices.Sort: total only on strings (and integers), not on floats
+		name = o.Name()
+		ok := false
+		if len(cc.Args) > 0 {
+			if sl, isSl := cc.Args[0].Type().Underlying().(*types.Slice); isSl {
+				if b, isB := sl.Elem().Underlying().(*types.Basic); isB && b.Info()&types.IsString != 0 {
+					ok = true
+				}
+			}
+		}
+		if !ok {
+			return false, "is " + f.String() + " on something other than a slice of strings"
+		}
+	}
+	switch an.FuncPkgPath(f) + "." + name {
 	case "sort.Strings":
 		return true, "sort.Strings: byte-wise order, total on distinct names"
 	case "slices.Sort", "golang.org/x/exp/slices.Sort":
